@@ -127,6 +127,16 @@ def evaluate(ctx, rng, tier, focus, budget, broken):
     for o in origins:
         for _ in range(20):
             ops4.append(f"ij2cell {gen.hx(o)} {rng.randrange(-60, 60)} {rng.randrange(-60, 60)} 0")
+    # origins in the five base cells around each pentagon base cell, coordinates reaching across the pentagon base
+    # cell (the unfolding tables PENTAGON_ROTATIONS* are consulted per (direction of the pentagon, leading digit))
+    for bc in gen.PENT:
+        around = [x for x in (nb.bfs(gen.mkcell(0, bc, []), 1) or {}) if ((x >> 45) & 127) != bc]
+        for n0 in around:
+            for res, R, cnt in ((1, 5, 7), (2, 12, 6), (3, 32, 6)) + (((4, 85, 6),) if tier != "quick" else ()):
+                kids = gen.children(n0, res)
+                for o in (kids if len(kids) <= cnt else rng.sample(kids, cnt)):
+                    for _ in range(12 if tier == "quick" else 40):
+                        ops4.append(f"ij2cell {gen.hx(o)} {rng.randrange(-R, R + 1)} {rng.randrange(-R, R + 1)} 0")
     out4 = ctx.c(ops4, tag="eval4")
     ops5, m5 = [], []
     for o_, a in zip(ops4, out4):
